@@ -41,6 +41,9 @@ pub enum Form {
     Terminal(u8),
     /// stream timestamp rules, through C02's driver and reference
     Stream,
+    /// device updates (inverter, gear train, axle, differential): every state a device writes is stamped with the newest
+    /// contributing read - through C08's driver and reference; only its timestamp verdicts are C03's business
+    Device,
 }
 #[derive(Clone, Debug, Serialize, Deserialize)]
 pub struct Scenario {
@@ -51,6 +54,8 @@ pub struct Scenario {
     pub k: u8,
     pub form: Form,
     pub stream: Option<c02::Scenario>,
+    #[serde(default)]
+    pub device: Option<crate::c08::Scenario>,
 }
 
 fn pd(k: u8) -> PositionDerivative {
@@ -188,7 +193,7 @@ fn exec_bin(s: &Scenario, payload: Payload, rhs: Rhs, op: u8, assign: bool) -> O
 }
 
 pub fn bin_forms() -> Vec<Form> {
-    let probe = Scenario { t1: 0, t2: 1, a: 1.0, b: 2.0, k: 0, form: Form::NotBool, stream: None };
+    let probe = Scenario { t1: 0, t2: 1, a: 1.0, b: 2.0, k: 0, form: Form::NotBool, stream: None, device: None };
     let mut v = Vec::new();
     for payload in [Payload::F32, Payload::Quantity, Payload::State, Payload::Command] {
         for rhs in [Rhs::Datum, Rhs::Scalar, Rhs::DatumF32, Rhs::ScalarF32] {
@@ -345,6 +350,15 @@ pub fn check(s: &Scenario) -> CheckResult {
             let r = c02::check_with(inner, "C03/stream")?;
             return Ok(CaseInfo::new(true, r.key).class("stream timestamp rule"));
         }
+        Form::Device => {
+            let inner = s.device.as_ref().expect("device scenario");
+            return match crate::c08::check(inner) {
+                Err(v) if v.key.ends_with("time") => Err(Violation::new(format!("C03/device/{}", v.key.trim_start_matches("C08/")), v.message)),
+                // any other verdict (values, constraint) is C08's to report
+                Err(_) => Ok(CaseInfo::new(false, 0)),
+                Ok(info) => Ok(CaseInfo::new(info.nontrivial, info.key ^ 0xD0).class("device update timestamp rule")),
+            };
+        }
     }
     let rel = s.t1.cmp(&s.t2) as i8;
     let extreme = |t: i64| t <= i64::MIN + 1 || t >= i64::MAX - 1;
@@ -376,11 +390,12 @@ impl Property for C03 {
     fn strategy(_tier: Tier) -> BoxedStrategy<Scenario> {
         let mut forms = bin_forms();
         forms.extend(other_forms());
-        let direct = (time_pair(), gen::moderate(), gen::moderate_nonzero(), 0u8..3, proptest::sample::select(forms)).prop_map(|((t1, t2), a, b, k, form)| Scenario { t1, t2, a, b, k, form, stream: None });
+        let direct = (time_pair(), gen::moderate(), gen::moderate_nonzero(), 0u8..3, proptest::sample::select(forms)).prop_map(|((t1, t2), a, b, k, form)| Scenario { t1, t2, a, b, k, form, stream: None, device: None });
         let times = prop_oneof![3 => proptest::sample::select(GRID.to_vec()), 2 => any::<i64>(), 2 => -3i64..3].boxed();
         let kinds = vec![c02::SK::SumN, c02::SK::Sum2, c02::SK::ProductN, c02::SK::Product2, c02::SK::Difference, c02::SK::Quotient, c02::SK::Exponent, c02::SK::And, c02::SK::Or, c02::SK::Not, c02::SK::LatestN, c02::SK::DeMorgan];
-        let streams = c02::scenario_strategy(times, kinds).prop_map(|inner| Scenario { t1: 0, t2: 0, a: 0.0, b: 0.0, k: 0, form: Form::Stream, stream: Some(inner) });
-        prop_oneof![3 => direct, 2 => streams].boxed()
+        let streams = c02::scenario_strategy(times, kinds).prop_map(|inner| Scenario { t1: 0, t2: 0, a: 0.0, b: 0.0, k: 0, form: Form::Stream, stream: Some(inner), device: None });
+        let devices = <crate::c08::C08 as Property>::strategy(_tier).prop_map(|inner| Scenario { t1: 0, t2: 0, a: 0.0, b: 0.0, k: 0, form: Form::Device, stream: None, device: Some(inner) });
+        prop_oneof![6 => direct, 4 => streams, 1 => devices].boxed()
     }
     fn cases(tier: Tier) -> u32 {
         tier.pick(80_000, 400_000)
@@ -394,7 +409,7 @@ impl Property for C03 {
             for &t2 in &GRID {
                 for &form in &forms {
                     for k in 0..3u8 {
-                        sink(Scenario { t1, t2, a: 1.5 + k as f32, b: -0.75, k, form, stream: None });
+                        sink(Scenario { t1, t2, a: 1.5 + k as f32, b: -0.75, k, form, stream: None, device: None });
                         n += 1;
                     }
                 }
